@@ -4,7 +4,7 @@
 # with the change, the demo fails with the change. On success stores it under /verif/seeded/<prop>-<i>/.
 out=$1; i=$2; prop=$3; tgt=${4:-$i}
 export GOFLAGS=-mod=mod GOPROXY=off GOSUMDB=off GOTOOLCHAIN=local
-wt=/tmp/vs-$prop-$tgt
+wt=/tmp/vs-$prop-$tgt-$$
 git -C /repo worktree remove --force $wt 2>/dev/null
 git -C /repo worktree add -q --detach $wt HEAD || exit 3
 trap "git -C /repo worktree remove --force $wt" EXIT
